@@ -8,7 +8,7 @@ oracle: the property predicate evaluated on the real class's observations (this 
         construction counting and injected failures (harness.cpp)"""
 import os
 
-GEN = ['gen_vertices.json', 'gen_ceil.json', 'gen_list.json', 'gen_raw.json', 'gen_bits.json']
+GEN = ['gen_vertices.json', 'gen_ceil.json', 'gen_list.json', 'gen_raw.json', 'gen_bits.json', 'gen_mut.json']
 M64 = (1 << 64) - 1
 # type index -> (size, alignment); harness.cpp checks sizeof / ItemTraits::GetAlignment / alignof against this table
 TYPES = {0: (1, 1), 1: (2, 2), 2: (4, 4), 3: (8, 8), 4: (3, 1), 5: (6, 2), 6: (12, 4), 7: (16, 16), 8: (16, 16),
